@@ -3,6 +3,7 @@ package checks
 import (
 	"bytes"
 	"fmt"
+	"github.com/bitcoin-sv/block-headers-service/service"
 	"path/filepath"
 	"runtime"
 	"sort"
@@ -29,6 +30,9 @@ type C15Plan struct {
 	Readers  int        `json:"readers"`  // 0-2 readers
 	Reads    int        `json:"reads"`    // reads per reader
 	Schedule []int      `json:"schedule"` // which parked goroutine runs next (mod number parked); cycled
+	// Both: spec indices that EVERY submitter delivers (the same header relayed by several peers at once): exactly one
+	// delivery is answered "stored", the others "duplicate", and every notification channel sees exactly one ADD event
+	Both []int `json:"both,omitempty"`
 }
 
 func goid() int64 {
@@ -88,11 +92,12 @@ func runC15(p *C15Plan) (*stats.Case, error) {
 	for i := range co.resume {
 		co.resume[i] = make(chan struct{}, 1)
 	}
+	events := &recChan{mode: "ok"}
 	s, err := stack.New(stack.Options{Dir: c15Dir, WrapHeaders: func(h repository.Headers) repository.Headers {
 		ip := interpose.Wrap(h)
 		ip.Yield = co.yield
 		return ip
-	}})
+	}, WrapServices: func(sv *service.Services) { sv.Notifier.AddChannel(events) }})
 	if err != nil {
 		return nil, fmt.Errorf("infra: %w", err)
 	}
@@ -105,6 +110,16 @@ func runC15(p *C15Plan) (*stats.Case, error) {
 			o = ((p.Owner[i] % p.Subs) + p.Subs) % p.Subs
 		}
 		lists[o] = append(lists[o], i)
+		for _, b := range p.Both {
+			if ((b%len(hs))+len(hs))%len(hs) == i {
+				for o2 := range lists {
+					if o2 != o {
+						lists[o2] = append(lists[o2], i)
+					}
+				}
+				break
+			}
+		}
 	}
 	var failMu sync.Mutex
 	var failure error
@@ -331,6 +346,44 @@ func runC15(p *C15Plan) (*stats.Case, error) {
 	if len(final) != len(uniqueHashes(hs))+1 {
 		return nil, fmt.Errorf("final store has %d headers, %d distinct headers were submitted", len(final)-1, len(uniqueHashes(hs)))
 	}
+	// every header was answered "stored" exactly once (further deliveries: "duplicate") and announced exactly once
+	storedBy := map[int]int{}
+	resMu.Lock()
+	for _, r := range results {
+		if r.cls == "stored" {
+			storedBy[r.spec]++
+		}
+	}
+	resMu.Unlock()
+	byHash := map[[32]byte]int{}
+	for i, n := range storedBy {
+		byHash[hs[i].Hash()] += n
+	}
+	for h, n := range byHash {
+		if n != 1 {
+			return nil, fmt.Errorf("header %s was answered as newly stored %d times (deliveries of the same header by several submitters: exactly one stores it, the others are duplicates)", model.HashStr(h), n)
+		}
+	}
+	for d := time.Now().Add(2 * time.Second); time.Now().Before(d); time.Sleep(2 * time.Millisecond) {
+		events.mu.Lock()
+		n := len(events.done)
+		events.mu.Unlock()
+		if n >= len(byHash) {
+			break
+		}
+	}
+	time.Sleep(5 * time.Millisecond)
+	perHash := map[string]int{}
+	events.mu.Lock()
+	for _, e := range events.done {
+		perHash[e.Hash]++
+	}
+	events.mu.Unlock()
+	for h := range byHash {
+		if c := perHash[model.HashStr(h)]; c != 1 {
+			return nil, fmt.Errorf("the notification channel received %d ADD events for stored header %s (expected exactly one)", c, model.HashStr(h))
+		}
+	}
 	matched := false
 	if len(hs) <= 6 {
 		for _, perm := range permutations(len(hs)) {
@@ -374,8 +427,8 @@ func runC15(p *C15Plan) (*stats.Case, error) {
 			}
 		}
 	}
-	cl := map[string]int64{"scenarios": 1, "schedule_steps": int64(steps), "with_overlapping_adds": b2i(overlap), "with_goroutine_released_inside_an_add": b2i(interleaved), "with_submitter_blocked_on_lock": b2i(blockedSeen), "with_readers": b2i(p.Readers > 0), "small_all_orders_checked": b2i(len(hs) <= 6)}
-	return &stats.Case{Sig: stats.Sig(planSig(p.Hist), fmt.Sprint(p.Owner), p.Subs, p.Readers, fmt.Sprint(p.Schedule)), Nontrivial: overlap || interleaved || blockedSeen, Classes: cl, Sample: p}, nil
+	cl := map[string]int64{"scenarios": 1, "schedule_steps": int64(steps), "with_overlapping_adds": b2i(overlap), "with_goroutine_released_inside_an_add": b2i(interleaved), "with_submitter_blocked_on_lock": b2i(blockedSeen), "with_readers": b2i(p.Readers > 0), "with_header_delivered_by_every_submitter": b2i(len(p.Both) > 0), "small_all_orders_checked": b2i(len(hs) <= 6)}
+	return &stats.Case{Sig: stats.Sig(planSig(p.Hist), fmt.Sprint(p.Owner), p.Subs, p.Readers, fmt.Sprint(p.Schedule), fmt.Sprint(p.Both)), Nontrivial: overlap || interleaved || blockedSeen, Classes: cl, Sample: p}, nil
 }
 
 func uniqueHashes(hs []model.Header) map[[32]byte]bool {
@@ -396,6 +449,12 @@ func genC15(t *rapid.T) *C15Plan {
 	p.Hist = hist.Gen(t, hist.GenOpts{MinSpecs: 2, MaxSpecs: quickThorough(7, 12), NoForbidden: true, NoUnknown: true, NoDuplicates: true, InOrder: true})
 	for range p.Hist.Specs {
 		p.Owner = append(p.Owner, rapid.IntRange(0, p.Subs-1).Draw(t, "owner"))
+	}
+	if rapid.IntRange(0, 2).Draw(t, "bothk") == 0 {
+		nb := rapid.IntRange(1, 3).Draw(t, "nboth")
+		for i := 0; i < nb; i++ {
+			p.Both = append(p.Both, rapid.IntRange(0, len(p.Hist.Specs)-1).Draw(t, "both"))
+		}
 	}
 	n := rapid.IntRange(4, 60).Draw(t, "nsched")
 	for i := 0; i < n; i++ {
@@ -435,6 +494,11 @@ func TestC15Enum(t *testing.T) {
 		{[]hist.Spec{sp(-1, 0x1d00ffff, 0), sp(-1, 0x1d00ffff, 1), sp(0, 0x1d00ffff, 2), sp(1, 0x1c00ffff, 3)}, []int{0, 1, 0, 1}}, // two branches racing
 		{[]hist.Spec{sp(-1, 0x1d00ffff, 0), sp(0, 0x1d00ffff, 1), sp(-1, 0x1c00ffff, 2), sp(2, 0x1d00ffff, 3)}, []int{0, 0, 1, 1}}, // reorg while the other extends
 	}
+	both := map[int][]int{4: {0}, 5: {0, 1}}
+	trees = append(trees,
+		tree{[]hist.Spec{sp(-1, 0x1d00ffff, 0), sp(0, 0x1d00ffff, 1)}, []int{0, 1}},  // (4) the first header is delivered by both submitters
+		tree{[]hist.Spec{sp(-1, 0x1d00ffff, 0), sp(-1, 0x1c00ffff, 1)}, []int{0, 1}}, // (5) two competing headers, each delivered by both
+	)
 	const L = 9
 	shard, nsh := stats.Shard(), stats.NShards()
 	count := 0
@@ -447,7 +511,7 @@ func TestC15Enum(t *testing.T) {
 				if count%nsh != shard {
 					continue
 				}
-				p := &C15Plan{Hist: &hist.Plan{Specs: tr.specs}, Owner: tr.owner, Subs: 2, Readers: readers, Reads: 4}
+				p := &C15Plan{Hist: &hist.Plan{Specs: tr.specs}, Owner: tr.owner, Subs: 2, Readers: readers, Reads: 4, Both: both[ti]}
 				for b := 0; b < L; b++ {
 					p.Schedule = append(p.Schedule, (v>>b)&1)
 				}
